@@ -54,7 +54,9 @@ def pause_twin(ch, ctx, did, steps, twin=False, **pol):
 
 def obligations(tier):
     obs = [kernels.e1("C09", "L7_pausing_holds", "L7_pausing_holds", timeout=600)]
-    quick = [("D02", 5), ("D03", 4), ("D04", 5), ("D07", 5), ("D08", 4), ("D09", 8), ("D10", 5), ("D11", 5), ("D12p", 7), ("D13", 4)]
+    quick = [("D02", 5), ("D03", 4), ("D04", 5), ("D07", 5), ("D08", 4), ("D09", 8), ("D10", 5), ("D11", 5), ("D12p", 7), ("D13", 4),
+             # a multi-referenced task live on two routes at once
+             ("D06", 5)]
     for did, steps in quick:
         if tier == "thorough":
             steps += 1
